@@ -963,6 +963,14 @@ func (c *converter) applyBag(js *lib.Schema, bag map[string]any) {
 			if f, ok := toFloat(v); ok {
 				js.MaxItems = new(f)
 			}
+		case "minProperties":
+			if f, ok := toFloat(v); ok {
+				js.MinProperties = new(f)
+			}
+		case "maxProperties":
+			if f, ok := toFloat(v); ok {
+				js.MaxProperties = new(f)
+			}
 		case "minSize":
 			if f, ok := toFloat(v); ok {
 				js.MinLength = &f
